@@ -1,11 +1,9 @@
 SPECIFICATION Spec
 CONSTANTS
   Keys = {"a", "b"}
-  Vals = {"x", "y"}
-  MaxIdx = 1
-  MaxOps = 4
-  MaxDepth = 3
-  MaxSize = 6
-CONSTRAINT Bound
-INVARIANTS TypeOK RoundTrip ExportPure ImportReplaces KindPreserved LeafCount
+  Vals = {"x"}
+  MaxLen = 2
+  DocDepth = 2
+  MaxOps = 3
+INVARIANTS TypeOK RoundTrip ExportPure ImportReplaces KindPreserved LeafCount Injective
 CHECK_DEADLOCK FALSE
